@@ -383,6 +383,24 @@ fn attach_main(script: &Value) -> i32 {
     0
 }
 
+/// Scope mode (`"mode":"scope"`): WHICH cgroup directory the agent would attach cgroup/connect4 to in this mount
+/// namespace -- the REAL `get_cgroup2_mount_path()`, falling back to the configured `cgroupRoot` on an error exactly as
+/// `Redirector::attach_bpf_prog` does.  Nothing is loaded or attached (the kprobe attach in front of the cgroup attach
+/// cannot succeed in this kernel, so `attach_bpf_prog` itself never gets as far as resolving the path).
+fn scope_main() -> i32 {
+    let got = proxy_agent_shared::linux::get_cgroup2_mount_path();
+    let fallback = crate::common::config::get_cgroup_root();
+    let path = match &got {
+        Ok(p) => p.clone(),
+        Err(_) => fallback,
+    };
+    emit(json!({"e": "resolved", "path": path.display().to_string(), "from_table": got.is_ok(),
+        "err": got.err().map(|e| e.to_string()).unwrap_or_default()}));
+    emit(json!({"e": "done"}));
+    flush();
+    0
+}
+
 pub fn main() -> i32 {
     let script: Value = serde_json::from_str(&std::fs::read_to_string(env("VERIF_SCRIPT")).expect("script")).expect("script json");
     SINK.lock().unwrap().out = Some(std::io::BufWriter::new(std::fs::File::create(env("VERIF_OUT")).expect("VERIF_OUT")));
@@ -390,6 +408,9 @@ pub fn main() -> i32 {
     assert!(!verif::audit::enabled(), "the audit stand-in must stay disabled in this driver");
     if script["loggers"].as_bool().unwrap_or(true) {
         setup_loggers();
+    }
+    if script["mode"] == "scope" {
+        return scope_main();
     }
     if script["mode"] == "attach" {
         return attach_main(&script);
